@@ -10,6 +10,7 @@
 import SfModel.Meta
 import SfModel.MetaX
 import SfModel.MetaFix
+import SfModel.MetaXState
 open Sf Sf.Meta Sf.MetaX
 namespace MetaCmd
 
@@ -88,16 +89,7 @@ def strTypes : List Nat := [1, 2, 3, 4, 5, 6, 7, 8, 9, 16]
 
 /-- the (type, text) pairs an AIFF / CAF file hands to psf_store_string on re-open -/
 def xStrings (st : St) : List (Nat × List Byte) :=
-  let h := st.h
-  let startE := if (h.strings.flags &&& SF_STR_LOCATE_START) ≠ 0 then entriesOf h.strings SF_STR_LOCATE_START else []
-  let endE := if (h.strings.flags &&& SF_STR_LOCATE_END) ≠ 0 then entriesOf h.strings SF_STR_LOCATE_END else []
-  if h.cont = .aiff then
-    let a := aiffStrings startE
-    let b := aiffStrings endE
-    aiffParse (a.length + 1) a ++ aiffParse (b.length + 1) b
-  else
-    -- caf_close pads an odd data end with a byte the chunk walk of caf_read_header does not expect: the trailing info is lost
-    readCafInfo (writeCafInfo h.strings.used startE) ++ (if h.audio.length % 2 = 1 then [] else readCafInfo (writeCafInfo h.strings.used endE))
+  Sf.MetaXS.stringsBack (st.h.cont = .aiff) st.h.strings st.h.audio.length
 
 def xMetaLine (st : St) : String :=
   let h := st.h
@@ -109,9 +101,7 @@ def xMetaLine (st : St) : String :=
   let cuesS := match cues with
     | some cs => " cuecount=1:" ++ toString cs.length ++ " cues=1:" ++ toString cs.length ++ ":" ++ ",".intercalate (cs.map tokOfCue)
     | none => " cuecount=0:0 cues=0:"
-  let chm : Option (List Nat) := match st.chmap with
-    | some (_, tag) => if tag = 0 then none else readChan (h.cont = .caf) st.ch (be4 tag)
-    | none => none
+  let chm : Option (List Nat) := Sf.MetaXS.chanBack (h.cont = .caf) st.ch st.chmap
   let chmS := match chm with | some m => "1:" ++ hexBytes (m.flatMap le4) | none => "0:"
   "meta" ++ String.join strs ++ " bext=0: cart=0:" ++ cuesS ++ " inst=0: chmap=" ++ chmS ++ " err=0"
 
@@ -178,7 +168,7 @@ def runLine (pkgName pkgVersion : List Byte) (st : St) (line : String) : St × O
         let map := (List.range st.ch).map fun k => u blob (4 * k) 4
         match setChannelMap st.ch map with
         | none => (st, some "ret=0")
-        | some (r, m, tag) => ({ st with chmap := some (m, tag) }, some ("ret=" ++ toString r))
+        | some (r, m, tag) => ({ st with chmap := Sf.MetaXS.applyChmap st.chmap m tag }, some ("ret=" ++ toString r))
     else (st, none)
   | "setcues" :: "h0" :: _ :: rest =>
     let cs := match rest with | [] => [] | t :: _ => if t = "" then [] else (t.splitOn ",").map cueOfTok
